@@ -442,6 +442,9 @@ def main(argv):
 
     warnings.filterwarnings('ignore')
     logging.disable(logging.CRITICAL)
+    import forml  # noqa: F401  pylint: disable=unused-import  (a broken forml import must fail the child, not a scenario)
+    from forml import provider  # noqa: F401  pylint: disable=unused-import
+
     with open(argv[1], encoding='utf-8') as fd:
         jobs = json.load(fd)
     out = []
